@@ -350,6 +350,38 @@ class Program:
                 for a in c.args:
                     if a['k'] == 'const' and 'fn' in a and a['fn'].get('local'):
                         self._value_passed(body, c, ('fnitem', a['fn']['uid']), set())
+        self._const_table_handlers()
+
+    def _const_table_handlers(self):
+        """fn items stored in a `const` / `static` table (their aggregate is built in the item's own body) escape
+        wherever a body reads that item and wraps something into a handler `dyn Fn`: `for (name, f) in TABLE {
+        register(name, Arc::new(f)) }`"""
+        item_bodies = {b.id: b for b in self.bodies if str(b.kind).startswith(('Const', 'Static', 'const', 'static')) or b.j.get('kind') in ('const', 'static')}
+        if not item_bodies:
+            return
+        users = {}
+        for b in self.bodies:
+            def see(op):
+                if isinstance(op, dict) and op.get('k') == 'const' and op.get('uneval_uid') in item_bodies and b.id != op['uneval_uid']:
+                    users.setdefault(op['uneval_uid'], set()).add(b.id)
+            for bb, i, pl, rv in b.assigns():
+                for k in ('op', 'a', 'b'):
+                    if isinstance(rv.get(k), dict):
+                        see(rv[k])
+                for o in rv.get('ops', []) or []:
+                    see(o)
+            for c in b.live_calls:
+                for a in c.args:
+                    see(a)
+        for fu, escs in list(self.fnitem_escapes.items()):
+            for (cb, to) in list(escs):
+                if cb.id in item_bodies and str(to).startswith('aggregate:'):
+                    for uid in users.get(cb.id, ()):
+                        ub = self.by_id[uid]
+                        for bb, i, pl, rv in ub.assigns():
+                            if rv['k'] == 'cast' and 'Unsize' in rv['cast'] and dyn_fn_class(rv['to']) == 'handler':
+                                self.fnitem_escapes[fu].append((ub, rv['to']))
+                                break
 
     def _value_passed(self, body, c, val, seen):
         kind, uid = val
@@ -442,7 +474,7 @@ class Program:
             if not c.is_indirect or body.is_closure or body.is_pub and not body.impl_self:
                 keep.append(c); continue
             fo = single_origin(trace_operand(body, c.term['func'], through_calls=set()))
-            if fo is None or fo.kind != 'param' or fo.proj or not body.locals[fo.data]['ty'].startswith('fn('):
+            if fo is None or fo.kind != 'param' or fo.proj or not re.match(r'^(for<[^>]*> )?(unsafe )?fn\(', body.locals[fo.data]['ty']):
                 keep.append(c); continue
             sites = []
             for b2 in self.bodies:
@@ -484,12 +516,29 @@ class Program:
                     continue
                 fo = single_origin(trace_operand(body, c.args[0], through_calls=set()))
                 targets = []
-                okk = fo is not None and fo.kind == 'param' and not fo.proj and not (body.is_pub and not body.is_closure and self._publicly_reachable(body))
+                owner = body
+                if fo is not None and fo.kind == 'param' and fo.data == 1 and body.is_closure and len(fo.proj) == 1 and fo.proj[0][0] == 'f':
+                    # the generic callable was captured by a closure (`iter.map(|(k, v)| f(k, v))`): it is the
+                    # enclosing body's parameter
+                    cs = self.closure_sites.get(body.id, [])
+                    fo = None
+                    if len(cs) == 1:
+                        pb, pbb, pi = cs[0]
+                        agg = pb.blocks[pbb]['stmts'][pi]['rv']
+                        k = self_k = None
+                        try:
+                            k = [e for e in trace_operand(body, c.args[0], through_calls=set())][0].proj[0][1]
+                        except Exception:
+                            k = None
+                        if k is not None and k < len(agg['ops']):
+                            fo = single_origin(trace_operand(pb, agg['ops'][k], through_calls=set()))
+                            owner = pb
+                okk = fo is not None and fo.kind == 'param' and not fo.proj and not owner.is_closure and not (owner.is_pub and self._publicly_reachable(owner))
                 sites = []
                 if okk:
                     for b2 in self.bodies:
                         for cc in b2.live_calls:
-                            if cc.ruid == body.id:
+                            if cc.ruid == owner.id:
                                 sites.append(cc)
                     okk = bool(sites)
                 for cc in sites if okk else []:
